@@ -170,6 +170,65 @@ static MessageRef Instantiate(const Shape & s, vh::Rng & r)
    return m;
 }
 
+// ---- Messages with EQUAL TemplateHashCode64() but DIFFERENT layouts (the templating gateways key their template caches by that code alone).
+// The code is a sum over the flattenable fields, in order, of position * (hash(name) + itemCount * typeCode), positions running on through sub-Messages.
+// A collision GROUP is (recipe, salt); its members differ only in the colliding part, a common prefix of ordinary fields shifts all positions alike.
+//   recipe 0: one field of user type t with n items, n*t equal:            6x1 / 3x2 / 2x3 / 1x6
+//   recipe 1: the same, under the EMPTY field name
+//   recipe 2: a type-code-0 field (contributes nothing but its name) with 1 / 2 / 4 items
+//   recipe 3: a trailing field {"" : type 0} present / absent / with 3 items (hash("") is what it is: the harness checks the codes really are equal)
+//   recipe 4: two adjacent user-typed fields whose type codes trade position weight: (100+p+1, 100) / (100, 100+p) at positions p, p+1
+//   recipe 5: a field inside / behind a sub-Message (positions run on through sub-Messages): {sub:{a}, b} / {sub:{a, b}}
+//   recipe 6: two sub-Message items sharing their fields differently: {s:[{a},{b}]} / {s:[{a,b},{}]}
+static const int NUM_COLLIDE_RECIPES = 7;
+static int ColliderMembers(int recipe) { static const int n[NUM_COLLIDE_RECIPES] = {4, 4, 3, 3, 2, 2, 2}; return n[recipe]; }
+static void AddUserItems(Message & m, const char * fn, uint32 type, uint32 n, vh::Rng & r) { for (uint32 i = 0; i < n; i++) { std::string b = RandBytes(r, 1 + r.R(12)); OKB(m.AddData(fn, type, b.data(), (uint32)b.size())); } }
+static MessageRef MakeCollider(int recipe, int member, uint32 salt, vh::Rng & r)
+{
+   MessageRef mr = GetMessageFromPool(3000 + salt % 7); if (mr() == NULL) HarnessAbort("GetMessageFromPool"); Message & m = *mr();
+   const uint32 npre = salt % 3; for (uint32 i = 0; i < npre; i++) { if (i == 0) OKB(m.AddInt32(vh::fmt("id%u", salt).c_str(), (int32)r.next())); else OKB(m.AddString("label", RandLetters(r, r.R(20)).c_str())); }
+   const uint32 p = npre + 1; const std::string x = vh::fmt("x%u", salt % 5);
+   switch (recipe) {
+   case 0: case 1: { static const uint32 T[4] = {6, 3, 2, 1}, N[4] = {1, 2, 3, 6}; AddUserItems(m, recipe ? "" : x.c_str(), T[member], N[member], r); } break;
+   case 2: { static const uint32 N[3] = {1, 2, 4}; AddUserItems(m, x.c_str(), 0, N[member], r); } break;
+   case 3: OKB(m.AddInt32("v", (int32)r.next())); if (member) AddUserItems(m, "", 0, member == 1 ? 1 : 3, r); break;
+   case 4: AddUserItems(m, "first", member ? 100 : 100 + p + 1, 1, r); AddUserItems(m, "second", member ? 100 + p : 100, 1, r); break;
+   case 5: { MessageRef sub = GetMessageFromPool(1); OKB(sub()->AddInt32("a", (int32)r.next())); if (member) OKB(sub()->AddInt32("b", (int32)r.next())); OKB(m.AddMessage("sub", sub)); if (!member) OKB(m.AddInt32("b", (int32)r.next())); } break;
+   default: { MessageRef s1 = GetMessageFromPool(1), s2 = GetMessageFromPool(2); OKB(s1()->AddInt16("a", (int16)r.next())); OKB((member ? s1 : s2)()->AddString("b", RandLetters(r, r.R(9)).c_str())); OKB(m.AddMessage("s", s1)); OKB(m.AddMessage("s", s2)); } break;
+   }
+   return mr;
+}
+// names, type codes and item counts of the flattenable fields, in order, recursively: what a template describes
+static std::string LayoutSig(const Message & m)
+{
+   std::string o = "{";
+   for (MessageFieldNameIterator it = m.GetFieldNameIterator(); it.HasData(); it++) {
+      const String & fn = it.GetFieldName(); uint32 t = 0, n = 0; if (m.GetInfo(fn, &t, &n).IsError() || t == B_POINTER_TYPE || t == B_TAG_TYPE) continue;
+      o += vh::fmt("%u:", fn.Length()); o.append(fn(), fn.Length()); o += vh::fmt("/%u*%u", t, n);
+      if (t == B_MESSAGE_TYPE) for (uint32 i = 0; i < n; i++) { ConstMessageRef sub; if (m.FindMessage(fn, i, sub).IsOK()) o += LayoutSig(*sub()); }
+      o += ';';
+   }
+   return o + "}";
+}
+// counts the plan items whose hash code was already used in this sequence by a DIFFERENT layout
+struct CollisionCounter {
+   std::map<uint64, std::set<std::string> > seen;
+   void Note(const Message & m) { if (m.GetNumNames() == 0) return; std::set<std::string> & s = seen[m.TemplateHashCode64()]; std::string sig = LayoutSig(m); if (!s.empty() && s.count(sig) == 0) vh::stat("template_hash_collisions_sent"); if (s.size() >= 1 && s.count(sig) == 0 && s.size() == 1) vh::stat("template_hash_collision_groups"); s.insert(sig); }
+};
+// a collision group for one sequence: picks a recipe, checks that the codes really collide (else counts the recipe as not colliding and yields nothing)
+struct ColliderGroup {
+   int recipe; uint32 salt; bool ok;
+   ColliderGroup() : recipe(0), salt(0), ok(false) {}
+   void Draw(vh::Rng & r)
+   {
+      recipe = (int)r.R(NUM_COLLIDE_RECIPES); salt = r.R(1000); vh::Rng probe(salt); ok = true;
+      uint64 h0 = MakeCollider(recipe, 0, salt, probe)()->TemplateHashCode64();
+      for (int k = 1; k < ColliderMembers(recipe); k++) if (MakeCollider(recipe, k, salt, probe)()->TemplateHashCode64() != h0) ok = false;
+      vh::stat(vh::fmt(ok ? "collide_recipe%d_groups" : "collide_recipe%d_not_colliding", recipe));
+   }
+   MessageRef Next(vh::Rng & r) const { return MakeCollider(recipe, (int)r.R((uint32)ColliderMembers(recipe)), salt, r); }
+};
+
 // ------------------------------------------------------------------------------------------------ receiver, session base
 struct Rx : public AbstractGatewayMessageReceiver {
    int mode;                                // 0: one entry per Message (flattened bytes); 1: one entry per item ("T:line" / "B:chunk")
@@ -253,6 +312,7 @@ struct BinSession : public Session {
       planned = (uint32)plan.size(); encPlan.resize(plan.size(), -1);
       if (cfg.family == F_MSG && cfg.a < 0) for (size_t i = 0; i < plan.size(); i++) if (fixed ? (i % 2 == 1) : sq.R(3) == 0) encPlan[i] = fixed ? (int)((i * 3) % 10) : (int)sq.R(10);
       for (size_t i = 0; i < plan.size(); i++) exp.push_back(Flat(*plan[i]()));
+      if (cfg.family == F_TMPL && !fixed) { CollisionCounter cc; for (size_t i = 0; i < plan.size(); i++) cc.Note(*plan[i]()); }
    }
    ~BinSession() { S()->SetDataIO(DataIORef()); R()->SetDataIO(DataIORef()); }
    virtual bool SupportsReset() const { return true; }
@@ -277,12 +337,14 @@ struct BinSession : public Session {
    }
    void PlanTemplating()
    {
-      if (fixed) { Shape a = MakeShape(sq, 1, 0, false), b = MakeShape(sq, 2, 0, true); plan.push_back(GetMessageFromPool(7)); plan.push_back(Instantiate(a, sq)); if (fixed == 1) { plan.push_back(Instantiate(b, sq)); plan.push_back(Instantiate(a, sq)); plan.push_back(Instantiate(b, sq)); plan.push_back(Instantiate(a, sq)); } return; }
+      if (fixed) { Shape a = MakeShape(sq, 1, 0, false), b = MakeShape(sq, 2, 0, true); plan.push_back(GetMessageFromPool(7)); plan.push_back(Instantiate(a, sq)); if (fixed == 1) { plan.push_back(Instantiate(b, sq)); plan.push_back(Instantiate(a, sq)); plan.push_back(Instantiate(b, sq)); plan.push_back(Instantiate(a, sq)); vh::Rng cr(11); plan.push_back(MakeCollider(0, 0, 4, cr)); plan.push_back(MakeCollider(0, 1, 4, cr)); plan.push_back(MakeCollider(0, 0, 4, cr)); plan.push_back(MakeCollider(5, 0, 4, cr)); plan.push_back(MakeCollider(5, 1, 4, cr)); } return; }
       static const uint32 PS[] = {1, 2, 3, 6, 12};
       uint32 P = PS[sq.R(5)]; std::vector<Shape> shapes; for (uint32 i = 0; i < P; i++) shapes.push_back(MakeShape(sq, (int)i, 0, sq.R(3) == 0));
       uint32 nm = shortSeq ? 2 + sq.R(5) : 3 + sq.R(22); uint32 pattern = sq.R(4);   // 0 cycle (LRU thrash), 1 random, 2 hot+cold, 3 runs
+      ColliderGroup cg[2]; const uint32 ncg = sq.R(5) < 2 ? 1 + sq.R(2) : 0; for (uint32 i = 0; i < ncg; i++) cg[i].Draw(sq);   // 40% of the sequences: 1-2 groups of hash-colliding layouts, interleaved with the ordinary traffic (and its evictions)
       for (uint32 i = 0; i < nm; i++) {
          uint32 roll = sq.R(100);
+         if (ncg && sq.R(10) < 3) { const ColliderGroup & g = cg[sq.R(ncg)]; if (g.ok) { plan.push_back(g.Next(sq)); if (sq.R(3) == 0) plan.push_back(g.Next(sq)); continue; } }
          if (roll < 8) plan.push_back(GetMessageFromPool(sq.R(100)));                                         // what-only: the 4-byte special form
          else if (roll < 18) { MessageRef m = GenVia(sq, false, msggen::SIZE_SMALL); plan.push_back(m); if (sq.R(2)) plan.push_back(m); }   // any flattenable Message, sent twice: second time through its template
          else { uint32 si = pattern == 0 ? i % P : pattern == 1 ? sq.R(P) : pattern == 2 ? (sq.R(3) ? 0 : sq.R(P)) : (i / 3) % P; plan.push_back(Instantiate(shapes[si], sq)); }
@@ -725,8 +787,8 @@ struct CgwSession : public Session {
 // exactly what its sender was given, and the Message itself must flatten to the same bytes afterwards.
 class IndependentGateway : public MessageIOGateway { public: explicit IndependentGateway(int32 enc) : MessageIOGateway(enc) {} protected: virtual bool AreOutgoingMessagesIndependent() const { return true; } };
 struct FanoutSession : public Session {
-   struct Lane { Pipe pipe; ChopDataIO sio, rio; AbstractMessageIOGatewayRef S, R; Rx rx; std::vector<std::string> exp; int kind, enc; bool riskZ, riskT; CountedMessageIOGateway * sCounted;
-                 Lane(Chopper * c, uint8_t id) : pipe(chopio::FR_MUSCLE8), sio(NULL, &pipe, c, id, id), rio(&pipe, NULL, c, id, id), rx(0), kind(0), enc(0), riskZ(false), riskT(false), sCounted(NULL) {} };
+   struct Lane { Pipe pipe; ChopDataIO sio, rio; AbstractMessageIOGatewayRef S, R; Rx rx; std::vector<std::string> exp; int kind, enc; bool riskZ, riskT; CountedMessageIOGateway * sCounted; uint32 lru; std::vector<MessageRef> sent; size_t phaseStart;   // sent: what the sender was given since the last Reset()
+                 Lane(Chopper * c, uint8_t id) : pipe(chopio::FR_MUSCLE8), sio(NULL, &pipe, c, id, id), rio(&pipe, NULL, c, id, id), rx(0), kind(0), enc(0), riskZ(false), riskT(false), sCounted(NULL), lru(2048), phaseStart(0) {} };
    std::vector<Lane *> lanes; std::vector<MessageRef> plan; std::vector<uint32> laneMask; std::vector<std::string> flatBefore; std::vector<Shape> shapes;
    static const char * KindName(int k) { static const char * const n[] = {"plain", "counted", "templating", "independent"}; return n[k]; }
    FanoutSession(const Cfg & c, uint64_t seqSeed, uint64_t schedSeed, bool s, int fx) : Session(c, seqSeed, schedSeed, s, fx)
@@ -736,35 +798,47 @@ struct FanoutSession : public Session {
          Lane * l = new Lane(&chop, (uint8_t)i); lanes.push_back(l); pipes.push_back(&l->pipe);
          if (fixed) { static const int FK[4] = {0, 1, 0, 2}, FE[4] = {0, 0, 6, 0}; l->kind = FK[i]; l->enc = FE[i]; }
          else { uint32 r = sq.R(100); l->kind = r < 35 ? 0 : r < 48 ? 1 : r < 80 ? 2 : 3; l->enc = pat == 0 ? e0 : pat == 1 ? (int)((e0 + 3 * i) % 10) : pat == 2 ? (sq.R(2) ? 0 : e0) : (int)sq.R(10); if (l->kind == 3 && l->enc == 0) l->enc = 6; }
-         uint32 lru = sq.R(2) ? 2048 : 1024 * 1024;
-         switch (l->kind) {
-         case 0: l->S.SetRef(new MessageIOGateway(D + l->enc)); l->R.SetRef(new MessageIOGateway()); break;
-         case 1: l->S.SetRef(l->sCounted = new CountedMessageIOGateway(D + l->enc)); l->R.SetRef(new CountedMessageIOGateway()); break;
-         case 2: l->S.SetRef(l->sCounted = new TemplatingMessageIOGateway(lru, D + l->enc)); l->R.SetRef(new TemplatingMessageIOGateway(lru)); break;
-         default: l->S.SetRef(new IndependentGateway(D + l->enc)); l->R.SetRef(new MessageIOGateway()); break;
-         }
+         l->lru = sq.R(2) ? 2048 : 1024 * 1024; l->S.SetRef(NewSender(*l)); if (l->kind == 1 || l->kind == 2) l->sCounted = static_cast<CountedMessageIOGateway *>(l->S());
+         switch (l->kind) { case 1: l->R.SetRef(new CountedMessageIOGateway()); break; case 2: l->R.SetRef(new TemplatingMessageIOGateway(l->lru)); break; default: l->R.SetRef(new MessageIOGateway()); break; }
          l->S()->SetDataIO(DummyDataIORef(l->sio)); l->R()->SetDataIO(DummyDataIORef(l->rio));
       }
       for (int i = 0; i < 3; i++) shapes.push_back(MakeShape(sq, 40 + i, 0, false));
       Replan();
    }
+   static AbstractMessageIOGateway * NewSender(const Lane & l)
+   {
+      const int D = MUSCLE_MESSAGE_ENCODING_DEFAULT;
+      switch (l.kind) { case 0: return new MessageIOGateway(D + l.enc); case 1: return new CountedMessageIOGateway(D + l.enc); case 2: return new TemplatingMessageIOGateway(l.lru, D + l.enc); default: return new IndependentGateway(D + l.enc); }
+   }
+   // the reuse-tag signature: did the tag change what this lane put on the wire?  The lane's Messages since the last Reset() go, as copies carrying a tag of their OWN, through a
+   // private sender of the same kind; if that yields the bytes the lane really wrote, sharing played no part and the difference is judged under the ordinary keys
+   static bool TagChangedBytes(const Lane & l)
+   {
+      Chopper c(1); c.mode = chopio::CM_EVERYTHING; Pipe p; ChopDataIO io(NULL, &p, &c); AbstractMessageIOGatewayRef g(NewSender(l)); g()->SetDataIO(DummyDataIORef(io));
+      for (size_t i = 0; i < l.sent.size(); i++) { MessageRef cl = GetMessageFromPool(*l.sent[i]()); if (cl() == NULL) HarnessAbort("GetMessageFromPool(copy)"); const bool tagged = cl()->HasName("_mrutag", B_TAG_TYPE); (void)cl()->RemoveName("_mrutag"); if (tagged) OKB(OptimizeMessageForTransmissionToMultipleGateways(cl)); (void)g()->AddOutgoingMessage(cl); }   // a tag of its own: the same format decisions (a tag field makes a what-only Message non-trivial for templating), nothing to share with
+      while (g()->DoOutput().GetByteCount() > 0) {}
+      g()->SetDataIO(DataIORef());
+      size_t have = l.pipe.Written() - l.phaseStart, n = have < p.Written() ? have : p.Written(); vh::stat("fanout_untagged_replays");
+      return n > 0 && memcmp(&p.buf[0], &l.pipe.buf[l.phaseStart], n) != 0;
+   }
    ~FanoutSession() { for (size_t i = 0; i < lanes.size(); i++) { lanes[i]->S()->SetDataIO(DataIORef()); lanes[i]->R()->SetDataIO(DataIORef()); delete lanes[i]; } }
    void Replan()
    {
       plan.clear(); laneMask.clear(); flatBefore.clear(); queued = 0; const uint32 K = (uint32)lanes.size(), all = (1u << K) - 1;
-      for (uint32 i = 0; i < K; i++) { lanes[i]->exp.clear(); lanes[i]->rx.got.clear(); lanes[i]->riskZ = lanes[i]->riskT = false; }
+      bool anyTemplating = false; for (uint32 i = 0; i < K; i++) { lanes[i]->exp.clear(); lanes[i]->rx.got.clear(); lanes[i]->riskZ = lanes[i]->riskT = false; lanes[i]->sent.clear(); lanes[i]->phaseStart = lanes[i]->pipe.Written(); if (lanes[i]->kind == 2) anyTemplating = true; }
+      ColliderGroup cg; const bool useCg = !fixed && sq.R(3) == 0; if (useCg) cg.Draw(sq); CollisionCounter cc;
       static const uint32 T[] = {2046, 2047, 2048, 2049, 2050};
       uint32 nm = fixed == 2 ? 2 : fixed ? 5 : shortSeq ? 2 + sq.R(4) : 3 + sq.R(10);
       for (uint32 i = 0; i < nm; i++) {
          MessageRef m; uint32 mask; bool tag;
          if (fixed) { m = i == 0 ? GetMessageFromPool(7) : LocalMsg(sq); if (i == 3) { m = GetMessageFromPool(3); OKB(m()->AddInt32("n", 3)); if (!PadToFlatSize(*m(), 2040, sq, true)) HarnessAbort("fixed plan"); } mask = i == 2 ? 5u : i == 4 ? 10u : all; tag = i != 2; }
          else {
-            m = sq.R(10) < 3 ? Instantiate(shapes[sq.R(3)], sq) : GenBinMsg(sq, false, shortSeq, plan, T, 5, 8, 200000);
+            m = (useCg && cg.ok && sq.R(10) < 4) ? cg.Next(sq) : sq.R(10) < 3 ? Instantiate(shapes[sq.R(3)], sq) : GenBinMsg(sq, false, shortSeq, plan, T, 5, 8, 200000);
             if (sq.R(4) == 0) mask = 1u << sq.R(K); else { mask = 0; for (uint32 k = 0; k < K; k++) if (sq.R(10) < 7) mask |= 1u << k; while ((mask & (mask - 1)) == 0) mask |= 1u << sq.R(K); }
             tag = (mask & (mask - 1)) ? sq.R(4) != 0 : sq.R(5) == 0;
          }
          if (tag) { OKB(OptimizeMessageForTransmissionToMultipleGateways(m)); if (!IsMessageOptimizedForTransmissionToMultipleGateways(m)) Fail("reuse-tag|not-reported", "IsMessageOptimizedForTransmissionToMultipleGateways() is false right after OptimizeMessageForTransmissionToMultipleGateways() returned OK"); }
-         plan.push_back(m); laneMask.push_back(mask); flatBefore.push_back(Flat(*m()));
+         plan.push_back(m); laneMask.push_back(mask); flatBefore.push_back(Flat(*m())); if (anyTemplating && !fixed) cc.Note(*m());
          if (mask & (mask - 1)) { if (tag) vh::stat("fanout_tagged_items_to_2plus_lanes"); else vh::stat("fanout_untagged_items_to_2plus_lanes"); }
          if (IsMessageOptimizedForTransmissionToMultipleGateways(m)) for (uint32 a = 0; a < K; a++) for (uint32 b = a + 1; b < K; b++) if ((mask >> a & 1) && (mask >> b & 1) && lanes[a]->enc == lanes[b]->enc) {
             Lane & x = *lanes[a]; Lane & y = *lanes[b];   // two senders that look up the same slot of the tag: which pairs may really share is the library's business
@@ -779,7 +853,9 @@ struct FanoutSession : public Session {
    void LaneFail(Lane & l, size_t li, const std::string & rule, const std::string & detail)
    {
       std::string d = vh::fmt("lane %zu (%s, encoding %d): ", li, KindName(l.kind), l.enc) + detail;
-      if (l.riskT) Fail("reuse-tag|templating-format", d + " | this lane and another lane with the same encoding, at least one of them templating, were given the same tagged Message");
+      const bool byTag = (l.riskT || l.riskZ) && TagChangedBytes(l);
+      if (!byTag) Fail(rule, d);
+      else if (l.riskT) Fail("reuse-tag|templating-format", d + " | this lane and another lane with the same encoding, at least one of them templating, were given the same tagged Message");
       else if (l.riskZ) Fail("reuse-tag|zlib-dependent-stream", d + " | this lane and another lane with the same zlib encoding were given the same tagged Message");
       else Fail(rule, d);
    }
@@ -793,7 +869,7 @@ struct FanoutSession : public Session {
    {
       if (queued >= planned) return false;
       for (size_t i = 0; i < lanes.size(); i++) if (laneMask[queued] >> i & 1) {
-         lanes[i]->exp.push_back(flatBefore[queued]); status_t r = lanes[i]->S()->AddOutgoingMessage(plan[queued]); if (r.IsError()) { Fail("gateway-error|AddOutgoingMessage", r()); return false; }
+         lanes[i]->exp.push_back(flatBefore[queued]); lanes[i]->sent.push_back(plan[queued]); status_t r = lanes[i]->S()->AddOutgoingMessage(plan[queued]); if (r.IsError()) { Fail("gateway-error|AddOutgoingMessage", r()); return false; }
          CheckCounted(*lanes[i], i, "after AddOutgoingMessage");
       }
       queued++; return !failed;
@@ -811,7 +887,7 @@ struct FanoutSession : public Session {
    {
       for (size_t i = 0; i < lanes.size() && !failed; i++) {
          Lane & l = *lanes[i]; const std::vector<std::string> & g = l.rx.got; std::vector<std::string> e = l.exp; if (prefixOnly && g.size() < e.size()) e.resize(g.size());
-         if (e != g && (l.riskT || l.riskZ)) { size_t k = 0; while (k < e.size() && k < g.size() && e[k] == g[k]) k++; LaneFail(l, i, "", vh::fmt("%zu Messages given to the sender, %zu received, first difference at index %zu", l.exp.size(), g.size(), k) + ((k < e.size() && k < g.size()) ? (" expected[" + vh::hex(e[k].data(), e[k].size(), 160) + "] got[" + vh::hex(g[k].data(), g[k].size(), 160) + "]") : std::string())); return; }
+         if (e != g && (l.riskT || l.riskZ) && TagChangedBytes(l)) { size_t k = 0; while (k < e.size() && k < g.size() && e[k] == g[k]) k++; LaneFail(l, i, "altered", vh::fmt("%zu Messages given to the sender, %zu received, first difference at index %zu", l.exp.size(), g.size(), k) + ((k < e.size() && k < g.size()) ? (" expected[" + vh::hex(e[k].data(), e[k].size(), 160) + "] got[" + vh::hex(g[k].data(), g[k].size(), 160) + "]") : std::string())); return; }
          size_t before = failed ? 1 : 0; CompareSeq(*this, prefixOnly ? "Message (before Reset)" : "Message", e, g, true);
          if (failed && !before) failDetail = vh::fmt("lane %zu (%s, encoding %d): ", i, KindName(l.kind), l.enc) + failDetail;
       }
@@ -1096,6 +1172,39 @@ static void RegressTextAndCounted()
       }
    }
 }
+// ---- witness of F60 (found by this harness's fan-out route in the thorough tier, repaired in /repo: "fix: TemplatingMessageIOGateway sent a Message using the
+// template of a differently laid-out Message with the same hash code"): two layouts with one TemplateHashCode64().  Runs LAST: on an unrepaired tree the second
+// pair makes the SENDER abort in DataFlattener's incomplete-write assertion, so the first (which only alters the Message) reports and returns.
+static void RegressTemplateCollision()
+{
+   Chopper chop(1); chop.mode = chopio::CM_EVERYTHING; vh::Rng r(60); static int target = 0;
+   {
+      MessageRef a = GetMessageFromPool(1); OKB(a()->AddPointer("p", &target)); MessageRef b = GetMessageFromPool(2); AddUserItems(*b(), "", 0, 1, r);   // nothing flattenable at all / one field that contributes nothing
+      if (a()->TemplateHashCode64() != b()->TemplateHashCode64()) vh::stat("regress_collision_pair_not_colliding");
+      else {
+         MiniLane l(&chop, new TemplatingMessageIOGateway, new TemplatingMessageIOGateway); l.Send(a); l.Send(b); l.Send(a); l.Send(b); l.Pump(); std::string v = l.Verdict("templating pair");
+         if (!v.empty()) { vh::viol("tmpl|template-hash-collision", "a Message without flattenable fields and the Message {\"\": one item of type code 0} share TemplateHashCode64(); sent alternately: " + v); return; }
+         vh::stat("regress_template_collision_pairs");
+      }
+   }
+   {
+      uint8 d[8]; memset(d, 0x77, sizeof(d)); MessageRef a = GetMessageFromPool(1); OKB(a()->AddData("x", 2, d, 8)); MessageRef b = GetMessageFromPool(1); OKB(b()->AddData("x", 1, d, 3)); OKB(b()->AddData("x", 1, d, 5));
+      if (a()->TemplateHashCode64() != b()->TemplateHashCode64()) vh::stat("regress_collision_pair_not_colliding");
+      else {
+         MiniLane l(&chop, new TemplatingMessageIOGateway, new TemplatingMessageIOGateway); l.Send(a); l.Send(b); l.Send(a); l.Send(b); l.Pump(); std::string v = l.Verdict("templating pair");
+         if (!v.empty()) { vh::viol("tmpl|template-hash-collision", "{x: user type 2 x 1 item} and {x: user type 1 x 2 items} share TemplateHashCode64(); sent alternately: " + v); return; }
+         vh::stat("regress_template_collision_pairs");
+      }
+   }
+   for (int rec = 0; rec < NUM_COLLIDE_RECIPES; rec++) {   // every recipe of the generator, every member, twice round, through a small and a large cache
+      for (int big = 0; big < 2; big++) {
+         MiniLane l(&chop, new TemplatingMessageIOGateway(big ? 1024 * 1024 : 200), new TemplatingMessageIOGateway(big ? 1024 * 1024 : 200));
+         for (int round = 0; round < 2; round++) for (int k = 0; k < ColliderMembers(rec); k++) l.Send(MakeCollider(rec, k, 7, r));
+         l.Pump(); std::string v = l.Verdict("templating pair"); if (!v.empty()) { vh::viol("tmpl|template-hash-collision", vh::fmt("collision recipe %d, LRU %s: ", rec, big ? "1 MiB" : "200 B") + v); return; }
+      }
+      vh::stat("regress_template_collision_recipes");
+   }
+}
 static void Regress()
 {
    vh::begin_case(2000); RegressReuseTag(); vh::begin_case(2001); RegressTextAndCounted();
@@ -1110,6 +1219,7 @@ static void Regress()
       if (!same) HarnessAbort(vh::fmt("replay of case %ld from its chunk log diverged (%zu vs %zu transfers)", k, log1.size(), log2.size()));
       vh::stat("regress_replayed_cases");
    }
+   vh::begin_case(3000); RegressTemplateCollision();
 }
 
 int main(int argc, char ** argv)
